@@ -350,7 +350,7 @@ class P(Prop):
                 if i == j and rng.random() < 0.7:
                     v = Fraction(0) if s == "q" else 0.0
                 M[i][j] = M[j][i] = v
-        integral = all(float(v) == int(v) for r in M for v in r if v not in (INF, -INF)) and not any(v in (INF, -INF) for r in M for v in r)
+        integral = all(v not in (INF, -INF) and abs(v) < 2 ** 53 and float(v) == int(v) for r in M for v in r)
         if s == "q":
             M = [[ratstr(v) for v in r] for r in M]
         c = {"kind": "part", "s": s, "mode": rng.choice(["min", "max"]), "C": M}
@@ -459,6 +459,7 @@ class P(Prop):
             t["glob"] = "none" if g[0] == "none" else ("falsy " if not pyval(g, self.np) else "") + g[0]
             t["domain"] = "in" if self.fe_in_domain(case) else "out"
             t["size"] = len(case["A"])
+            t["form"] = case.get("form", "pos")
         if k == "sb":
             t["smode"] = case["smode"]
             g = case["tol"]
@@ -520,7 +521,7 @@ class P(Prop):
     # ---------------------------------------------------------------- front ends: cost functions
     def fe_in_domain(self, case):
         """the call the caller writes is one the cost function accepts, and there are at least two candidates"""
-        g = case["glob"][0] == "none"
+        g = case["glob"][0] == "none" or case["api"] == "simplify"     # simplify's free modes have no global parameter
         return len(case["A"]) >= 3 and case["sig"] in (ACCEPTS3 if g else ACCEPTS4)
 
     def make_cost(self, case):
@@ -959,23 +960,34 @@ class P(Prop):
             n = len(case["pts"])
             if out["mode"] != int(self.S.MODE_SEGMENTATION_MAXIMIZE):
                 return "findStopsGlobal delegates with mode %s instead of MAXIMIZE" % out["mode"]
-            # the reward recomputed from the track; a segment whose circle tracklib's minCircle could not compute (None)
-            # is worth 0 by the code's own convention: geometry is not this property
-            R = [list(r) for r in g["Rcode"]]
-            D = [list(r) for r in g["Rdoc"]]
-            for (i, e) in out.get("none", []):
-                if e + 1 < n:
-                    R[i][e + 1] = R[e + 1][i] = 0
-                    D[i][e + 1] = D[e + 1][i] = 0
-            if len(out["C"]) != n or any(Fraction(out["C"][a][b]) != R[a][b] for a in range(n) for b in range(n)):
-                bad = [(a, b) for a in range(n) for b in range(n) if len(out["C"]) == n and Fraction(out["C"][a][b]) != R[a][b]]
-                return "findStopsGlobal's reward matrix differs from the criterion recomputed from the track at %s" % (bad[:4],)
-            Rx = [[Fraction(v) for v in r] for r in R]
-            r = oracle(Rx, n - 1, True, out["idx"], 0, "summed reward")
+            # The reward recomputed from the track, cell by cell. Where the documentation leaves no doubt the cell must hold
+            # exactly that; on a boundary tie (segment lasting exactly `duration`, circle of diameter exactly `diameter`) the
+            # documented (inclusive) and the coded (exclusive) conventions are both accepted; a segment whose circle tracklib's
+            # minCircle could not compute (None) is worth 0 by the code's own convention (geometry is not this property).
+            R, D = g["Rcode"], g["Rdoc"]
+            none = {(i, e + 1) for (i, e) in out.get("none", [])}
+            if len(out["C"]) != n or any(len(r) != n for r in out["C"]):
+                return "findStopsGlobal's reward matrix is not %d x %d" % (n, n)
+            Mx = [[Fraction(0)] * n for _ in range(n)]
+            bad = []
+            for a in range(n):
+                for b in range(n):
+                    v = Fraction(out["C"][a][b])
+                    lo, hi = min(a, b), max(a, b)
+                    if v == R[a][b] or v == D[a][b] or (v == 0 and (lo, hi) in none):
+                        Mx[a][b] = v
+                    else:
+                        bad.append((a, b, float(v), R[a][b]))
+                    if v != Fraction(out["C"][b][a]):
+                        return "findStopsGlobal passes an asymmetric matrix"
+            if bad:
+                return "findStopsGlobal's reward matrix differs from the criterion recomputed from the track: (row, column, passed, criterion) = %s" % (bad[:4],)
+            r = oracle(Mx, n - 1, True, out["idx"], 0, "summed reward")
             if r:
                 return r
-            if self.doc_boundary and D != R:
-                r = oracle([[Fraction(v) for v in r] for r in D], n - 1, True, out["idx"], 0, "summed DOCUMENTED reward (inclusive boundaries)")
+            Dx = [[Fraction(0 if (min(a, b), max(a, b)) in none else D[a][b]) for b in range(n)] for a in range(n)]
+            if self.doc_boundary and Dx != Mx:
+                r = oracle(Dx, n - 1, True, out["idx"], 0, "summed DOCUMENTED reward (inclusive boundaries)")
                 if r:
                     return r
             return None
@@ -1067,7 +1079,7 @@ class P(Prop):
                     yield {"kind": "part", "s": "q", "mode": mode, "C": M2}
         if k == "fe":
             pool = self.GLOBS_T if case["fam"] == "weights" else self.GLOBS_Q
-            for g in pool:
+            for g in (pool if case["api"] != "simplify" else [["none"]]):
                 for sig in ("3", "4", "4d", "var"):
                     for mode in ("min", "max"):
-                        yield dict(case, glob=g, sig=sig, mode=mode if case["api"] != "simplify" else case["mode"])
+                        yield dict(case, glob=g, sig=sig, mode=mode)
